@@ -86,6 +86,22 @@ def tableChars (rows : List CharRow) : Chars :=
       if ds = [] ∨ (intMaxStrDigits ≠ 0 ∧ intMaxStrDigits < ds.length) then .error .valueError
       else .ok (ds.foldl (fun acc c => acc * 10 + (match find c with | some r => r.val | none => 0)) 0) }
 
+/-- a step of a session: ["frame", j] | ["read", k] | ["set", j, i, type, length, precision, scale, element type]
+| ["rename", j, i, name] -/
+def decSOp : PyVal → Option SOp
+  | .list [.str "frame", .int j] => if j ≥ 0 then some (.frame j.toNat) else none
+  | .list [.str "read", .int k] => if k ≥ 0 then some (.read k.toNat) else none
+  | .list [.str "set", .int j, .int i, ty, len, p, q, e] => do
+    if j < 0 ∨ i < 0 then none
+    pure (.redeclare j.toNat i.toNat { ty := ← decTy ty, length := ← decOptNat len, precision := ← decOptNat p,
+                                        scale := ← decOptNat q, elem := ← decOptStr e })
+  | .list [.str "rename", .int j, .int i, .str n] => if j ≥ 0 ∧ i ≥ 0 then some (.rename j.toNat i.toNat n.toList) else none
+  | _ => none
+
+def encEntries : Option (List Entry) → PyVal
+  | none => .none
+  | some es => .list (es.map fun e => .list [str e.name, str e.code, optNat e.precision, optNat e.scale])
+
 def handle (op : String) (args : List PyVal) : Option (List PyVal) :=
   match op, args with
   | "from_name", [.str s] => some [encRes (fromName s.toList)]
@@ -129,6 +145,13 @@ def handle (op : String) (args : List PyVal) : Option (List PyVal) :=
     match describe cs with
     | none => pure [.none]
     | some es => pure [.list (es.map fun e => .list [str e.name, str e.code, optNat e.precision, optNat e.scale])]
+  | "session", [.list schemas, .list ops] => do
+    -- frames over shared schemas, columns redeclared between reads: what every read of description returns
+    let ss ← schemas.mapM fun sc => match sc with
+      | .list cols => cols.mapM decCol
+      | _ => none
+    let os ← ops.mapM decSOp
+    pure [.list ((session { schemas := ss } os).map encEntries)]
   | "tables", [] =>
     some [.list (baseTypes.map str), .list (scalarTypes.map str), .list (memberNames.map str), .bool regexPinned]
   | _, _ => none
